@@ -65,3 +65,62 @@ def install(reg):
         note="soundness and constraint-respect of every reported override (C06, and the 'never a forbidden variable or an oversized set' clause of C07); "
              "completeness / minimality (C07) is decided by the bounded stand-in",
     ))
+
+
+def install_succession(reg):
+    EMPTYS = z3.K(Name, z3.IntVal(-1))
+    AccFold = z3.Function("AccFixed", T.Net, LS.sort(), I, T.SpaceS)     # values fixed before step k of a succession
+    _N, _l, _k = z3.Const("N!acc", T.Net), z3.Const("l!acc", LS.sort()), z3.Int("k!acc")
+    AX_ACC = [
+        z3.ForAll([_N, _l], AccFold(_N, _l, 0) == EMPTYS, patterns=[AccFold(_N, _l, 0)]),
+        z3.ForAll([_N, _l, _k], z3.Implies(_k >= 0, AccFold(_N, _l, _k + 1) ==
+                                           T.union(AccFold(_N, _l, _k), T.Perc(_N, T.union(LS.at(_l)[_k], AccFold(_N, _l, _k))))),
+                  patterns=[AccFold(_N, _l, _k + 1)]),
+    ]
+    N = lambda c: net_of(c.bn)
+    FB = lambda c: z3.If(OptSN.is_none(c.forbidden_drivers), z3.K(Name, z3.BoolVal(False)), OptSN.val(c.forbidden_drivers))
+
+    def step_sound(c, k, lst):
+        """every override listed for step k forces motif k once the values fixed by the previous steps are assumed, within the constraints"""
+        target, AF = LS.at(c.succession)[k], AccFold(N(c), c.succession, k)
+        m = z3.Int("m!d")
+        d = LS.at(lst)[m]
+        P = T.Perc(N(c), T.union(d, AF))
+        kq = z3.Const("ck!", Name)
+        inner = z3.Lambda([kq], z3.If(z3.And(target[kq] >= 0, z3.Not(AF[kq] >= 0)), target[kq], -1))
+        bound = z3.If(OptInt.is_none(c.max_drivers_per_succession_node), T.card(inner), OptInt.val(c.max_drivers_per_succession_node))
+        dom = z3.Lambda([kn], d[kn] >= 0)
+        pool_ok = z3.ForAll([kn], z3.Implies(d[kn] >= 0, z3.And(
+            z3.Not(FB(c)[kn]),
+            z3.If(c.strategy == 0, z3.And(target[kn] >= 0, z3.Not(AF[kn] >= 0), d[kn] == target[kn]), T.isvar(N(c), kn)))))
+        return z3.ForAll([m], z3.Implies(z3.And(0 <= m, m < LS.len(lst)), z3.And(
+            z3.ForAll([kn], z3.Implies(target[kn] >= 0, P[kn] == target[kn])), pool_ok, setcard(dom) <= bound, T.wf_space(d))))
+
+    def inv(c):
+        cs = c.control_strategies
+        return [("fixed_so_far", z3.And(c.assume_fixed == AccFold(N(c), c.succession, c.i), T.wf_space(c.assume_fixed), T.dom_within(c.assume_fixed, N(c)))),
+                ("one_list_per_step", LLS.len(cs) == c.i),
+                ("steps_sound", z3.ForAll([k_], z3.Implies(z3.And(0 <= k_, k_ < c.i), step_sound(c, k_, LLS.at(cs)[k_]))))]
+
+    reg.add(Contract(
+        "biobalm.control.drivers_of_succession",
+        params=[("bn", TGraph), ("succession", LS), ("strategy", STRAT), ("max_drivers_per_succession_node", OptInt), ("forbidden_drivers", OptSN)],
+        defaults={"strategy": "internal", "max_drivers_per_succession_node": None, "forbidden_drivers": None},
+        result_type=LLS, properties=("C06", "C07"),
+        requires=[lambda c: z3.ForAll([k_], z3.Implies(z3.And(0 <= k_, k_ < LS.len(c.succession)), z3.And(
+            T.wf_space(LS.at(c.succession)[k_]), T.dom_within(LS.at(c.succession)[k_], N(c))))),
+                  lambda c: z3.Or(c.strategy == 0, c.strategy == 1)],
+        ensures=[("one_list_per_step", lambda c: LLS.len(c.result) == LS.len(c.succession)),
+                 ("each_step_judged_relative_to_the_previous_trap_space", lambda c: z3.ForAll([k_], z3.Implies(
+                     z3.And(0 <= k_, k_ < LS.len(c.succession)), step_sound(c, k_, LLS.at(c.result)[k_]))))],
+        axioms=AX_ACC,
+        lemmas=[("L1.perc_wf", lambda c: z3.ForAll([z3.Const("s!pw", T.SpaceS)], z3.Implies(
+            z3.And(T.wf_space(z3.Const("s!pw", T.SpaceS)), T.dom_within(z3.Const("s!pw", T.SpaceS), N(c))),
+            z3.And(T.wf_space(T.Perc(N(c), z3.Const("s!pw", T.SpaceS))), T.dom_within(T.Perc(N(c), z3.Const("s!pw", T.SpaceS)), N(c)))),
+            patterns=[T.Perc(N(c), z3.Const("s!pw", T.SpaceS))]))],
+        local_types={"control_strategies": LLS, "assume_fixed": TSpace, "ldoi": TSpace},
+        loops={0: LoopContract("for ts in succession", inv, lemmas=[("L1.perc_wf", lambda c: z3.ForAll([z3.Const("s!pw", T.SpaceS)], z3.Implies(
+            z3.And(T.wf_space(z3.Const("s!pw", T.SpaceS)), T.dom_within(z3.Const("s!pw", T.SpaceS), N(c))),
+            z3.And(T.wf_space(T.Perc(N(c), z3.Const("s!pw", T.SpaceS))), T.dom_within(T.Perc(N(c), z3.Const("s!pw", T.SpaceS)), N(c)))),
+            patterns=[T.Perc(N(c), z3.Const("s!pw", T.SpaceS))]))])},
+    ))
